@@ -20,8 +20,8 @@ RULE = ("simple polygons from gen.c06_simple_polygon (own star/comb/spiral/conve
         "the same 2^-26 grid: uniform in the enlarged bounding box, at distance 10^-6.5..10^-1.5 sizes from an edge / a "
         "vertex, sharing x and/or y with vertices, inside a triangle of the triangulation, exactly on edges and vertices "
         "(tie rule, exact comparison only); every point set asked as (N,3), (N,2), single (3,) and (2,) in a per-case "
-        "shuffled order, plus malformed widths; circles and ellipses (a<b, a=b, a>b; centre at the origin / integer / "
-        "float / far; one third reached through the radius / axes / centre setters, all re-queried after a centre "
+        "shuffled order, plus malformed widths; circles and ellipses (sizes 1e-3..1e3; a<b, a=b, a>b; centre at the origin / "
+        "integer / float / far; out-of-plane offsets of 1e-12..1e-4 and 0.5 sizes; one third reached through the radius / axes / centre setters, all re-queried after a centre "
         "move) x in-plane points in all four quadrants about the centre, at relative distance 10^-6.5..10^-1.5 from "
         "the boundary, sharing x or y with the centre; distinct = distinct (shape, point set); non-trivial = every case")
 ASSUMPTIONS = [
@@ -39,6 +39,9 @@ ASSUMPTIONS = [
     "points exactly on the boundary: the property is silent; the implementation is compared bit-exactly with the "
     "model over Q (correspondence), and the model's value is the one proved in polygon_on_edge_ccw / _cw",
     "Ellipse.is_inside is modelled as coded (one-sided box test); the exact ellipse membership is the oracle",
+    "circles / ellipses: a point whose offset from the shape's plane is at most 1e-9 * size (size = radius, larger "
+    "semi-axis) counts as an in-plane point and must be answered like the in-plane point with the same x, y; larger "
+    "offsets are compared with the model only (isclose(z, 0, atol = 1e-8 * size), /repo bab419e)",
 ]
 
 MARGIN = 1e-7
@@ -627,11 +630,41 @@ def mutate_and_requery(ctx, case, shp, cls, P3, exact, far, size, how, hrng):
 # ----------------------------------------------------------------------------- circles and ellipses
 
 
+def curved_shape(rng):
+    """A circle or an ellipse (dict like gen.c06_curved) at sizes 1e-3 .. 1e3: a<b, a=b, a>b, centre at the origin /
+    integer / float / far (in units of the size)."""
+    shape = "circle" if rng.random() < 0.4 else "ellipse"
+    a = float(10 ** rng.uniform(-3, 3))
+    rel = ["a<b", "a=b", "a>b"][int(rng.integers(3))]
+    if shape == "circle" or rel == "a=b":
+        b = a
+    elif rel == "a<b":
+        b = a * float(rng.uniform(1.1, 8))
+    else:
+        b = a / float(rng.uniform(1.1, 8))
+    ck = ["origin", "int", "float", "far"][int(rng.integers(4))]
+    m = max(a, b)
+    if ck == "origin":
+        c = [0, 0, 0]
+    elif ck == "int":
+        c = [int(v) for v in rng.integers(-5, 6, size=3)]
+    elif ck == "float":
+        c = [float(v) for v in rng.uniform(-2 * m, 2 * m, size=3)]
+    else:
+        c = [float(v) for v in rng.uniform(-10 * m, 10 * m, size=3)]
+    return {"shape": shape, "a": a, "b": b, "center": c, "center_kind": ck,
+            "rel": "a=b" if a == b else ("a<b" if a < b else "a>b")}
+
+
 def make_curved_case(rng, ctx):
-    sh = gen.c06_curved(rng)
+    sh = curved_shape(rng) if rng.random() < 0.7 else gen.c06_curved(rng)
     npts = (ctx.budget(90, 290) + int(rng.integers(0, 21))) // max(1, ctx.widen)
-    return {"shape": sh["shape"], "curved": sh, "points": gen.c06_curved_points(rng, sh, npts),
-            "zoff": [1e-9, 3e-7, 0.5 * max(sh["a"], sh["b"])]}
+    # out-of-plane offsets RELATIVE to the size (radius / larger semi-axis), both signs: within rounding of the plane
+    # (1e-12 .. 1e-9.3), round the switch 1e-8 * size of the implementation, clearly off (.. 1e-4), and far off
+    zrel = [float(10 ** rng.uniform(-12, -9.3)) * (1 if rng.random() < 0.5 else -1) for _ in range(2)]
+    zrel += [float(10 ** rng.uniform(-9.3, -4)) * (1 if rng.random() < 0.5 else -1) for _ in range(3)]
+    zrel += [0.5 * (1 if rng.random() < 0.5 else -1)]
+    return {"shape": sh["shape"], "curved": sh, "points": gen.c06_curved_points(rng, sh, npts), "zrel": zrel}
 
 
 def eval_curved(ctx, case):
@@ -697,12 +730,22 @@ def eval_curved(ctx, case):
         if farB[i] and m_in[i] != res[i]:
             ctx.disagree(cls.lower() + ".inside", dict(case, points=[case["points"][i]]), [bool(res[i]), bool(m_in[i])])
             break
-    # out-of-plane points (correspondence only: the property speaks about in-plane points)
-    for dz in case["zoff"]:
-        q3 = pts[: min(npts, 8)].copy()
-        q3[:, 2] += dz
-        dzz = q3[:, 2] - cf[2]
-        okz = np.abs(np.abs(dzz) - 1e-8) > 1e-10
+    # ---- out-of-plane offsets relative to the size.  B: implementation = model (isclose(z, 0, atol = 1e-8 * size))
+    #      everywhere except a hair round the switch.  C: a point within rounding of the plane (|dz| <= 1e-9 * size, the
+    #      project's natural tolerance) is an in-plane point: its answer must be that of its in-plane twin, at every
+    #      size of the shape.
+    size = a if is_circle else max(a, b)
+    ctx.count("size:1e%+d" % int(np.floor(np.log10(size))))
+    ins = ([i for i in range(npts) if farB[i] and far_curve[i] and res[i] and rho[i] < 1][:5]
+           + [i for i in range(npts) if farB[i] and far_curve[i] and res[i] and rho[i] > 1][:1])
+    outs = [i for i in range(npts) if farB[i] and far_curve[i] and not res[i]][:3]
+    pick = ins + outs
+    for zr in case.get("zrel", []):
+        if not pick:
+            break
+        q3 = pts[pick].copy()
+        q3[:, 2] = q3[:, 2] + zr * size
+        dzz = q3[:, 2] - cf[2]                          # the offsets actually realised in doubles
         try:
             r3 = np.asarray(shp.is_inside(q3))
             if is_circle:
@@ -712,11 +755,26 @@ def eval_curved(ctx, case):
         except Exception as e:
             ctx.disagree(cls.lower() + ".inside:out-of-plane", dict(case, points=[]), repr(e))
             break
-        sel = farB[: len(q3)] & okz
-        if np.any(m3[sel] != r3[sel]):
-            ctx.disagree(cls.lower() + ".inside:out-of-plane", dict(case, points=[]), [float(dz)])
+        if r3.shape != (len(pick),):
+            ctx.fail(cls + ".is_inside:shape", "result is not a boolean (N,) array", dict(case, points=[]), str(r3.shape))
             break
-        ctx.count("out-of-plane", len(q3))
+        ctx.count("out-of-plane:" + ("within-rounding" if abs(zr) <= 1e-9 else "off" if abs(zr) < 0.1 else "far"),
+                  len(pick))
+        bad = [k for k in range(len(pick)) if abs(dzz[k]) <= 1e-9 * size and bool(r3[k]) != bool(res[pick[k]])]
+        if bad:
+            k = bad[0]
+            ctx.fail(cls + ".is_inside:membership:in-plane-up-to-rounding",
+                     "a point within rounding of the shape's plane (|dz| <= 1e-9 * size) is not answered like the "
+                     "in-plane point with the same x, y",
+                     dict(case, points=[case["points"][pick[k]]], zrel=[float(zr)]),
+                     {"dz": float(dzz[k]), "dz/size": float(dzz[k] / size), "size": size, "impl": bool(r3[k]),
+                      "in-plane answer": bool(res[pick[k]])})
+        okz = np.abs(np.abs(dzz) / (1e-8 * size) - 1.0) > 1e-6
+        if np.any(m3[okz] != r3[okz]):
+            ctx.disagree(cls.lower() + ".inside:out-of-plane", dict(case, points=[]),
+                         {"zrel": float(zr), "size": size, "impl": str(r3), "model": str(m3)})
+        if bad or np.any(m3[okz] != r3[okz]):
+            break
 
     # ---- C: implementation vs exact membership (Lean spec over Q on the very inputs)
     c2 = cf[:2]
@@ -749,7 +807,7 @@ def eval_curved(ctx, case):
             sig, what = cls + ".is_inside:membership", "is_inside differs from exact membership"
         if sig not in reported:
             reported.add(sig)
-            ctx.fail(sig, what, dict(case, points=[case["points"][i]], zoff=[]),
+            ctx.fail(sig, what, dict(case, points=[case["points"][i]], zrel=[]),
                      {"impl": bool(res[i]), "exact": bool(exact[i]), "rho": float(rho[i]),
                       "d/axes": [float(d[i, 0] / a), float(d[i, 1] / b)]})
         if sig == KNOWN_ELLIPSE:
@@ -764,7 +822,7 @@ def eval_curved(ctx, case):
             one, ok = repr(e), False
         if not ok:
             ctx.fail(cls + ".is_inside:batch-vs-single", "single-point call differs from the batch call",
-                     dict(case, points=[case["points"][i]], zoff=[]), [str(one), bool(res[i])])
+                     dict(case, points=[case["points"][i]], zrel=[]), [str(one), bool(res[i])])
             break
 
     # ---- argument handling (correspondence): (N,3) rows, list input, and the widths NumPy broadcasting
@@ -783,11 +841,11 @@ def eval_curved(ctx, case):
             mk = ("exc", e.kind)
         g = got[k]
         if g[0] != mk[0] or (g[0] == "exc" and g[1] != mk[1]):
-            ctx.disagree(op + ":" + k, dict(case, points=[], zoff=[]), {"impl": str(g[:2]), "model": str(mk[:2])})
+            ctx.disagree(op + ":" + k, dict(case, points=[], zrel=[]), {"impl": str(g[:2]), "model": str(mk[:2])})
         elif g[0] == "ok" and k == "w3":
             sel = farB[: len(g[1])]
             if g[1].shape != mk[1].shape or np.any(g[1][sel] != mk[1][sel]) or np.any(g[1][sel] != res[: len(g[1])][sel]):
-                ctx.disagree(op + ":" + k, dict(case, points=[], zoff=[]), "rows answered differently")
+                ctx.disagree(op + ":" + k, dict(case, points=[], zrel=[]), "rows answered differently")
     ctx.count("arg-shapes-checked")
 
     # ---- the same object after a centre move: query -> move -> query
@@ -802,7 +860,7 @@ def eval_curved(ctx, case):
             r2 = np.asarray(shp.is_inside(moved))
         except Exception as e:  # noqa: BLE001
             ctx.fail(cls + ".is_inside:raises", "is_inside raised %s after a centre move" % exc_kind(e),
-                     dict(case, points=[], zoff=[]), repr(e))
+                     dict(case, points=[], zrel=[]), repr(e))
             return
         # the moved points are rounded: compare with exact membership about the NEW centre on the moved doubles
         c2 = c1[:2]
@@ -825,7 +883,7 @@ def eval_curved(ctx, case):
                 continue          # near a box face, or the listed box-test finding (reported above on the fresh shape)
             ctx.fail(cls + ".is_inside:membership:after-move",
                      "is_inside of the same object after its centre setter differs from exact membership about the "
-                     "new centre", dict(case, points=[case["points"][i]], zoff=[]),
+                     "new centre", dict(case, points=[case["points"][i]], zrel=[]),
                      {"impl": bool(r2[i]), "exact": bool(ex2[i]), "reached": how, "new-centre": c1.tolist()})
             break
 
@@ -853,7 +911,7 @@ def fixed_cases():
             out.append({"shape": "polygon", "poly": sq, "points": pts, "cls": "Polygon", "reverse": rev,
                         "mode": "xy3", "normal": normal, "nscale": 1.0})
     ell = {"shape": "ellipse", "a": 1.0, "b": 2.0, "center": [0, 0, 0], "center_kind": "origin", "rel": "a<b"}
-    out.append({"shape": "ellipse", "curved": ell, "zoff": [],
+    out.append({"shape": "ellipse", "curved": ell, "zrel": [],
                 "points": [[-5.0, -5.0, 0.0, "witness"], [0.9, 1.9, 0.0, "witness"], [0.5, -1.0, 0.0, "witness"],
                            [-0.9, 1.9, 0.0, "witness"], [0.9, -1.9, 0.0, "witness"], [3.0, 0.0, 0.0, "witness"]]})
     return out
